@@ -18,6 +18,11 @@ LEVEL = "model_checking"
 
 
 def enabled(world):
+    """Whether hashing is enabled *as the user last said* (`gwf config set use_spec_hashes true|false`), not as gwf happens to read
+    the stored value back."""
+    intent = getattr(world, "hashing_intent", None)
+    if intent is not None:
+        return intent
     return bool((world.conf or {}).get("use_spec_hashes"))
 
 
@@ -100,6 +105,9 @@ def do(world, action):
             info["result"] = r
             w2 = s.snapshot()
         w2.sim["faults"] = {}
+        w2.hashing_intent = getattr(world, "hashing_intent", None)
+        if action[0] == "gwf" and list(args[:3]) == ["config", "set", "use_spec_hashes"]:
+            w2.hashing_intent = args[3] == "true"
         return w2, info
     if action[0] == "drain":
         return drain(world), info
@@ -149,6 +157,7 @@ def check_transition(acc, world, action, w2, info, trace, meta):
     rows = W.parse_status(rs.stdout)
     w2ref = w2.copy()
     w2ref.hashes = exp  # judge staleness against what the records *should* be
+    w2ref.conf = dict(w2ref.conf or {}, use_spec_hashes=enabled(w2))  # ... and against what the user switched on or off
     pl = CW.ref_plan(w2ref)
     if rows != pl["status"]:
         viol("status differs from the reference plan", dict(rows=rows, expected=pl["status"], records=got))
